@@ -56,8 +56,12 @@ def call(ur, fn, fam, x, par, log=None, seed=None, n=None):
 
 def gen_par(rng, fam):
     if fam == "exp":
+        if rng.random() < 0.12:
+            return {"rate": rng.choice([2, 3, 5, 10])}          # a whole-number rate given as a Python int
         return {"rate": round(10 ** rng.uniform(-2, 2), 5)}
     if fam == "gamma":
+        if rng.random() < 0.12:
+            return {"shape": rng.choice([1, 2, 5, round(rng.uniform(0.3, 20), 4)]), "rate": rng.choice([2, 3, 5])}
         return {"shape": round(rng.uniform(0.3, 20), 4), "rate": round(10 ** rng.uniform(-1.5, 1.5), 5)}
     if fam == "norm":
         return {"mean": round(rng.uniform(-5, 5), 4), "sd": round(10 ** rng.uniform(-1, 1), 4)}
